@@ -38,7 +38,9 @@ TARGETED = [
     '{"type":"bytes","logicalType":"decimal","precision":0}', '{"type":"bytes","logicalType":"decimal","precision":-1}',
     '{"type":"fixed","name":"D","size":1,"logicalType":"decimal","precision":100}',
     '{"type":"fixed","name":"D","size":18446744073709551615,"logicalType":"decimal","precision":3}',
-    '{"type":"record","name":"R","fields":[1]}', '{"type":"record","name":"R","fields":[{"name":"a","type":"int"},null]}',
+    '{"type":"record","name":"R","fields":[1]}', '{"type":"record","name":"R","fields":[{"name":"a","type":"int"},{"name":"b","type":"int","aliases":["a"]},{"name":"a","type":"long"}]}',
+    '{"type":"record","name":"R","fields":[{"name":"a","type":"int"},{"name":"a","type":"int"}]}', '{"type":"record","name":"R","fields":[{"name":"f","type":[],"default":1}]}',
+    '{"type":"record","name":"R","fields":[{"name":"f","type":{"type":[]},"default":null}]}', '{"type":"record","name":"R","fields":[{"name":"a","type":"int"},null]}',
     '[{"type":"fixed","name":"X","size":1},{"type":"fixed","name":"X","size":2}]',
     '{"type":"record","name":"R","fields":[{"name":"a","type":{"type":"enum","name":"X","symbols":["A"]}},{"name":"b","type":{"type":"enum","name":"X","symbols":["B"]}}]}',
 ]
